@@ -35,7 +35,7 @@ EXTENDS Integers, FiniteSets, Sequences, TLC
 CONSTANT Configs,     \* set of scenario records explored (one per initial state)
          MaxClock     \* bound on the logical clock in model checking (state constraint)
 
-VARIABLE cfg          \* the scenario: [N, kind, args, deps, reg, wof, side, norm, outs]
+VARIABLE cfg          \* the scenario: [N, kind, args, deps, reg, wof, side, norm, consistent, outs]
 
 Range(s) == {s[i] : i \in DOMAIN s}
 
@@ -375,12 +375,16 @@ ExactlyStaleRebuilt ==
      /\ (Stored(n) /\ n \notin OutOfDate(mt0, fresh)) => ncl[n] = 0          \* up-to-date values are not recomputed
 SourcesPresent == \A s \in Nodes : PureSrc(s) => mt[s] # 0     \* the premise under which a run can succeed at all
 \* C05: repeated immediately with no output requested, the run would do nothing
-SecondRunNoOp == (outcome = "ok" /\ SourcesPresent) => PlanOps(StaleSet(mt, fresh), <<>>) = {}
+\* ... and a scenario in which a dependent source has a plain dependency that its writer does not have is
+\* inconsistent: the source's data can be produced before that dependency is rebuilt, so the source stays "older
+\* than something upstream" after a successful run and is legitimately rebuilt once more
+Consistent == cfg.consistent
+SecondRunNoOp == (outcome = "ok" /\ SourcesPresent /\ Consistent) => PlanOps(StaleSet(mt, fresh), <<>>) = {}
 \* C08: in every state - mid-run, after a cut - whatever a later run would treat as up to date is correct
 LooksFreshImpliesCorrect ==
   \A n \in Nodes : (Stored(n) \/ DepSrc(n)) /\ n \notin StaleSet(mt, 0) => val[n] = Scratch[n]
 \* C08: values completely written before a cut are not rebuilt by the next run (same fresh_time, nothing changed upstream)
-CompletedWritesKept == SourcesPresent => \A n \in wr : n \notin StaleSet(mt, fresh)
+CompletedWritesKept == (SourcesPresent /\ Consistent) => \A n \in wr : n \notin StaleSet(mt, fresh)
 \* C09 as an action property of the design: whenever the plan order lets an operation start, the
 \* directly stated write -> read -> use clauses hold (they are part of the guards, so this is
 \* checked through `PlanOrderSufficient` below)
